@@ -229,6 +229,33 @@ pub fn deps_part(report: &mut Report, batch: &mut Batch, rng: &mut Rng, n: usize
         report.fail("oracle", "type-side-in-code-only-analysis", format!("{:?}", text), replay.clone());
       }
     }
+    // every JSDoc import written is recorded once, and a position inside it is found by the lookup
+    if kind.include_types() {
+      let texts_written: BTreeSet<&String> = info.jsdoc_imports.iter().map(|j| &j.specifier.text).collect();
+      for text in texts_written {
+        let written: Vec<&deno_graph::analysis::JsDocImportInfo> = info.jsdoc_imports.iter().filter(|j| j.specifier.text == *text).collect();
+        let Some(d) = js.dependencies.get(text) else {
+          report.fail("oracle", "written-import-not-recorded-once", format!("{:?}: a JSDoc import in the module information, no dependency", text), replay.clone());
+          continue;
+        };
+        let recorded = d.imports.iter().filter(|i| matches!(i.kind, deno_graph::ImportKind::JsDoc)).count();
+        if written.len() != recorded {
+          report.fail("oracle", "written-import-not-recorded-once", format!("{:?}: {} JSDoc import(s) in the module information, {} recorded on the dependency", text, written.len(), recorded), replay.clone());
+        }
+        for j in written {
+          let pos = j.specifier.range.start;
+          match d.includes(pos) {
+            Some(r) if r.range.includes(pos) => {}
+            other => report.fail(
+              "oracle",
+              "position-lookup-misses-written-import",
+              format!("{:?}: the JSDoc import at {}:{} is not found by Dependency::includes (answer {:?})", text, pos.line, pos.character, other.map(|r| r.range.clone())),
+              replay.clone(),
+            ),
+          }
+        }
+      }
+    }
     report.nontrivial.insert(format!(
       "deps/{:?}/{:?}/n{}/merged{}",
       kind,
